@@ -403,12 +403,19 @@ type rec struct {
 	delay      []int // per node: 0 none, 1 gosched, >1 sleep microseconds
 	visitDelay []int
 	seenDepth  map[string]int
+	nfVariant  []int // 0 exact, 1 cid.Undef, 2 raw-codec alias; +3 = wrapped with %w
 	limit      int
 }
 
 func newRec(d *dagT, r *vlib.Rand, limit int, parallel bool) *rec {
 	rc := &rec{d: d, fetchOK: map[int]int{}, fetchAll: map[int]int{}, lastFail: map[uint64]*event{}, seenDepth: map[string]int{}, limit: limit}
 	rc.delay = make([]int, d.n)
+	// shape of the not-found error per node: what CID it carries and whether it
+	// is wrapped (a collaborator need not echo the walked CID)
+	rc.nfVariant = make([]int, d.n)
+	for i := 0; i < d.n; i++ {
+		rc.nfVariant[i] = r.Intn(6)
+	}
 	rc.visitDelay = make([]int, d.n)
 	for i := 0; i < d.n; i++ {
 		if !parallel {
@@ -518,7 +525,17 @@ func (rc *rec) fetch(c cid.Cid, what string) (int, error) {
 	}
 	var err error
 	if rc.d.fail[i] == fMissing {
-		err = &missingErr{format.ErrNotFound{Cid: c}, i}
+		carried := c
+		switch rc.nfVariant[i] % 3 {
+		case 1:
+			carried = cid.Undef
+		case 2:
+			carried = cid.NewCidV1(cid.Raw, c.Hash())
+		}
+		err = &missingErr{format.ErrNotFound{Cid: carried}, i}
+		if rc.nfVariant[i] >= 3 {
+			err = fmt.Errorf("harness: store layer: %w", err)
+		}
 	} else {
 		err = &brokenErr{i}
 	}
@@ -889,6 +906,15 @@ func walkCase(k *vlib.Case, co caseOpts) {
 
 	rc := newRec(d, r, w.limit, w.parallel)
 	opts := w.build(rc)
+	var nf []string
+	for i := 0; i < d.n; i++ {
+		if d.fail[i] == fMissing {
+			nf = append(nf, fmt.Sprintf("%d:%s", i, [...]string{"exact", "undef", "raw-alias", "wrapped-exact", "wrapped-undef", "wrapped-raw-alias"}[rc.nfVariant[i]]))
+		}
+	}
+	if len(nf) > 0 {
+		k.Logf("not-found error carries: [%s]", strings.Join(nf, " "))
+	}
 	useSessions := r.Bool()
 	if co.fetch {
 		k.Logf("remote exchange supports sessions: %v", useSessions)
